@@ -13,9 +13,22 @@ from sqlalchemy.sql import functions as sa_fnc
 from mindsdb_sql.parser import ast
 
 
+def _is_column_type(val):
+    # a type of sqlalchemy that can be used as it is: not a base class / mixin / helper of the module
+    # and not a type that needs arguments (ARRAY needs the type of its items)
+    if not (isinstance(val, type) and issubclass(val, sa.types.TypeEngine)):
+        return False
+    if val.__module__ != 'sqlalchemy.sql.sqltypes' or not hasattr(val, '__visit_name__'):
+        return False
+    try:
+        val()
+    except TypeError:
+        return False
+    return True
+
+
 sa_type_names = [
-    key for key, val in sa.types.__dict__.items() if hasattr(val, '__module__')
-    and val.__module__ in ('sqlalchemy.sql.sqltypes', 'sqlalchemy.sql.type_api')
+    key for key, val in sa.types.__dict__.items() if _is_column_type(val)
 ]
 
 
